@@ -28,6 +28,7 @@ DEFAULT = dict(
     p_refuse_step=0.0, n_muts=(1, 3), p_q_near_output=0.5, p_plant=0.0, p_double_clean=0.0,
     p_plain_build=0.0, p_swap_groups=0.0, p_fail_after_nested=0.0,
     p_switch_root=0.3, p_anc_target=0.0, p_stepargs=0.0, p_chain=0.0,
+    p_retry=0.0, p_cache_in_output_dir=0.0,
 )
 
 # JSON values for arguments / return values / versions (C07, C16)
@@ -117,7 +118,8 @@ class Gen:
 
     def antichain(self, U, k):
         rng = self.rng
-        cand = list(U)
+        avoid = getattr(self, 'cache_dir_mode', None) or ()
+        cand = [u for u in U if u not in avoid]
         rng.shuffle(cand)
         out = []
         for c in cand:
@@ -172,6 +174,19 @@ class Gen:
     # ------------------------------------------------------------------
     def gen_query(self, U):
         rng = self.rng
+        if getattr(self, 'cache_dir_mode', None):
+            # the cache file lives in a directory that also holds outputs:
+            # when that directory appears in the view is unspecified, so
+            # programs only ask file-level questions about leaf paths
+            avoid = self.cache_dir_mode
+            leaves = [u for u in U if u not in avoid and not any(
+                v.startswith(u + '/') for v in U)] or ['zz']
+            kind = rng.choice(['exists', 'is_file', 'read_text',
+                               'declare_read', 'read_binary'])
+            st = ['q', kind, rng.choice(leaves)]
+            if kind != 'exists' and kind != 'is_file':
+                st.append('HASH' if self.chance('p_hash') else 'METADATA')
+            return st
         kind = rng.choice(self.p['query_kinds'])
         pool = list(U) + [''] + [a for u in U for a in ancestors(u)]
         rel = rng.choice(pool)
@@ -241,6 +256,17 @@ class Gen:
                         ['bytes', 'pathlike', 'redundant', 'dotdot']))
                 body.append(st)
                 ctx['calls'].append(st)
+                if self.chance('p_retry'):
+                    # "try again with other arguments when it fails": the
+                    # first call uses arguments that change from build to
+                    # build, the retry uses the previous build's arguments
+                    a, b = rng.sample([1, 2, 'x', [1], {'k': 1}, None], 2)
+                    st[3] = [{'__step__': [a, b]}]
+                    st[4] = {}
+                    st[6] = True
+                    retry = list(st)
+                    retry[3] = [{'__step__': [b, a]}]
+                    body.append(['if', ['lasterr'], [retry], []])
             elif k == 'sb':
                 cands = [f for f in ctx['subs'] if f[0] > fid_index]
                 if not cands:
@@ -316,6 +342,8 @@ class Gen:
         while len(O) < depth + 2 and tries < 60:
             tries += 1
             cand = '/'.join(rng.choice(NAMES) for _ in range(rng.randint(2, 3)))
+            if cand in (getattr(self, 'cache_dir_mode', None) or ()):
+                continue
             if not any(cand == o or cand.startswith(o + '/') or
                        o.startswith(cand + '/') for o in O):
                 O.append(cand)
@@ -468,6 +496,9 @@ class Gen:
             rel = rng.choice(O_all)
         else:
             rel = rng.choice(pool)
+        if getattr(self, 'cache_dir_mode', None) and \
+                rel in self.cache_dir_mode:
+            return [['touch', rel]]
         if self.chance('p_plant'):
             # a foreign file next to / below something the build manages
             base = rng.choice(pool)
@@ -556,12 +587,26 @@ class Gen:
     def generate(self, profile):
         rng = self.rng
         U = self.gen_universe()
+        self.cache_dir_mode = None
+        cache_rel = rng.choice(self.p['cache_rels'])
+        if self.chance('p_cache_in_output_dir'):
+            deep = [u for u in U if '/' in u] or ['a/b']
+            d = rng.choice(deep).split('/')[0]
+            mid = rng.choice(['', 'm/', 'm/n/'])
+            cache_rel = '%s/%scache.gz' % (d, mid)
+            anc = {'', d}
+            if mid:
+                anc.add(d + '/m')
+            if mid == 'm/n/':
+                anc.add(d + '/m/n')
+            self.cache_dir_mode = anc
+            self.p = dict(self.p, w_probe=0, p_anc_target=0.0)
         funcs, roots, groups = self.gen_program(U)
         U = self.U_final
         sc = {
             'profile': profile, 'seed': self.seed,
             'config': {
-                'cache_rel': rng.choice(self.p['cache_rels']),
+                'cache_rel': cache_rel,
                 'build_name': 'B',
                 'listdir_seed': rng.randrange(1 << 30),
             },
@@ -640,6 +685,9 @@ def gen_stragglers(seed, params=None):
         else:
             root.extend(body)
     root.extend(tail())
+    if rng.random() < 0.25:
+        # the root function raises while a straggler still uses its builder
+        root.append(['raise', 'UserError'])
     steps = []
     for b in range(rng.randint(2, 3)):
         st = {'op': 'build', 'root': 0, 'versions': {}, 'tags': ['C17']}
@@ -664,7 +712,49 @@ def gen_stragglers(seed, params=None):
     }
 
 
+def gen_wide(seed, params=None):
+    """Builds with many outputs (> 128 files moved aside in one build):
+    configuration-dependent code such as the fan-out of the backup
+    directory is only reached by wide builds."""
+    rng = random.Random(seed)
+    n = rng.choice([130, 140, 200, 260])
+    funcs = {'FW': {'kind': 'file', 'name': 'nFW', 'variants': [
+        [['q', 'read_text', 'x0', 'HASH'], ['w', 'once']],
+        [['w', 'once']]]}}
+    prefix = rng.choice(['o', 'd/o', 'd/e/o'])
+    foreign = rng.random() < 0.5
+    init = [['write', 'x0', 'in0']]
+    if foreign:
+        for k in range(n):
+            init.append(['write', '%s%03d' % (prefix, k), 'foreign%d' % k])
+    root = [['bfmany', prefix, n, 'FW', rng.choice(['METADATA', 'HASH'])]]
+    tail = rng.choice([[], [['raise', 'UserError']]])
+    steps = []
+    if foreign:
+        # the first build overwrites n foreign files and fails
+        steps.append({'op': 'build', 'root': 1, 'versions': {}})
+        steps.append({'op': 'build', 'root': 0, 'versions': {}})
+    else:
+        steps.append({'op': 'build', 'root': 0, 'versions': {}})
+        steps.append({'op': 'mutate', 'muts': [['write', 'x0', 'in1']]})
+        # everything is rebuilt (n backups), then the build fails
+        steps.append({'op': 'build', 'root': 1, 'versions': {}})
+        steps.append({'op': 'build', 'root': 0, 'versions': {}})
+    if rng.random() < 0.5:
+        steps.append({'op': 'clean'})
+    del tail
+    return {
+        'profile': 'wide', 'seed': seed,
+        'config': {'cache_rel': '../cache.gz', 'build_name': 'B',
+                   'listdir_seed': rng.randrange(1 << 30)},
+        'init': init, 'funcs': funcs,
+        'roots': [root, root + [['raise', 'UserError']]], 'steps': steps,
+    }
+
+
 def generate(profile, seed, params=None):
+    if profile == 'wide':
+        return gen_wide(seed, params)
     if profile == 'threads':
         return gen_threads(seed, params)
     if profile == 'stragglers':
